@@ -1487,6 +1487,11 @@ impl Session {
         self.pkt_counter.load(std::sync::atomic::Ordering::SeqCst)
     }
 
+    /// The buffering flag alone (no lock taken: usable while a writer holds the buffer lock).
+    pub fn verif_buffering(&self) -> bool {
+        self.buffering.load(std::sync::atomic::Ordering::Relaxed)
+    }
+
     /// Whether frames are currently buffered, and how many bytes wait in the buffer.
     pub async fn verif_buffer_state(&self) -> (bool, usize) {
         let buffering = self.buffering.load(std::sync::atomic::Ordering::Relaxed);
